@@ -20,6 +20,15 @@ fn main() {
             }
         }
     }
+    // Newton on non-affine problems: an Ok result must be a root (residual), also when an update preserves the norm of the iterate
+    for start in [-1.0f64, -2.5, 0.4, 1.0, -0.2, 2.0] {
+        let f1 = |x: &[f64]| SVector::<f64, 1>::new(x[0] * x[0] + 3.0 * x[0]);
+        let j1 = |x: &[f64]| SMatrix::<f64, 1, 1>::new(2.0 * x[0] + 3.0);
+        if let Ok(x) = newton::<f64, _, _, 1>(&[start], f1, j1, 1e-9, 100) { if f1(x.as_slice()).norm() > 1e-6 { found.push(format!("newton on x^2+3x from {start} returned {} (residual {:e})", x[0], f1(x.as_slice()).norm())); } }
+        let f2 = |x: &[f64]| SVector::<f64, 2>::new(x[0] * x[0] + 3.0 * x[0] + (x[1] - 2.0), 2.0 * (x[1] - 2.0));
+        let j2 = |x: &[f64]| SMatrix::<f64, 2, 2>::new(2.0 * x[0] + 3.0, 1.0, 0.0, 2.0);
+        if let Ok(x) = newton::<f64, _, _, 2>(&[start, 2.0], f2, j2, 1e-9, 100) { if f2(x.as_slice()).norm() > 1e-6 { found.push(format!("newton on the 2-d system from ({start}, 2) returned {:?} (residual {:e})", x.as_slice(), f2(x.as_slice()).norm())); } }
+    }
     // Steffensen on a contraction with tolerance near machine precision
     fn g(x: f64) -> f64 { 0.5 * x.cos() }
     for tol in [1e-6, 1e-10, 1e-13] {
